@@ -672,7 +672,7 @@ Fixpoint has_kind (m : machine) (k : vkind) (param : option str) (r : yv) : bool
   | KList => match r with YList _ => true | _ => false end
   | KDict => match r with YDict _ => true | _ => false end
   | KBoolInt => match r with YInt z => (z =? 0) || (z =? 1) | _ => false end
-  | KPow2 => match r with YNone => true | YInt z => (0 <? z) && (z =? 2 ^ Z.log2 z) | _ => false end
+  | KPow2 => match r with YNone => true | YInt z => (0 <? z) && (z =? 2 ^ Z.log2 z) | _ => false end   (* an int that IS a power of two *)
   | KEnum => match r, param with
              | YNone, _ => true
              | YStr s, Some p => mem_str s (split_on 44 (lower p))
@@ -728,7 +728,9 @@ Fixpoint yv_eqb (a b : yv) : bool :=
          | _, _ => false
          end) x y
   | YSet x, YSet y =>
-      forallb (fun e => existsb (yv_eqb e) y) x && forallb (fun e => existsb (fun e' => yv_eqb e' e) x) y
+      (* Python set equality: elements compared with == (5 == 5.0) *)
+      forallb (fun e => existsb (fun e2 => key_eqb e e2 || yv_eqb e e2) y) x &&
+      forallb (fun e => existsb (fun e' => key_eqb e' e || yv_eqb e' e) x) y
   | YToken x, YToken y => zs_eqb x y
   | YDev _ x, YDev _ y => zs_eqb x y       (* by name: the same device object can sit in several collections *)
   | _, _ => false
